@@ -205,7 +205,7 @@ class Inliner:
 
     # -------------------------------------------------------------- splicing
     def _expand(self, fi: FuncInfo, callee: FuncInfo, call: ast.Call, target: ast.expr | None, stack: tuple[str, ...], depth: int,
-                collect: str | None = None) -> list[ast.stmt]:
+                collect: str | None = None, tail: bool = False) -> list[ast.stmt]:
         """Statements equivalent to `target = callee(args)`. With `collect` (a fresh list variable name) the callee is a
         generator whose values are all consumed at once (list(gen(...))): `yield v` becomes `collect.append(v)`, `return`
         leaves the spliced body."""
@@ -275,6 +275,8 @@ class Inliner:
 
             def visit_Return(self, node: ast.Return):
                 out: list[ast.stmt] = []
+                if tail:
+                    return node  # `return helper(...)`: the helper's returns are the caller's returns
                 if collect is not None:
                     return [ast.copy_location(ast.Break(), node)]
                 val = node.value if node.value is not None else ast.Constant(value=None)
@@ -305,7 +307,7 @@ class Inliner:
                 raise _NoInline("yield used as an expression")
         # returns inside loops of the helper would `break` the wrong loop: refuse those helpers
         for loop in [n for n in walk_no_nested(fn) if isinstance(n, (ast.For, ast.While, ast.AsyncFor))]:
-            if any(isinstance(r, ast.Return) for r in walk_no_nested(loop)):
+            if not tail and any(isinstance(r, ast.Return) for r in walk_no_nested(loop)):
                 raise _NoInline("return inside a loop of the helper")
         rr = RetRewriter()
         new_body: list[ast.stmt] = []
@@ -334,6 +336,14 @@ class Inliner:
                 falls_through = any(not (p.kind == "stmt" and isinstance(p.ast, ast.Return)) for p, _lab in cfg.exit.pred)
             except Exception:  # noqa: BLE001
                 falls_through = True
+        if tail:
+            if falls_through:
+                new_body.append(ast.copy_location(ast.Return(value=ast.Constant(value=None)), call))
+            stmts = pre + new_body
+            self.stats["inlined_calls"] += 1
+            if depth < MAX_DEPTH:
+                stmts = self._block(_Ctx(fi, callee), stmts, stack + (callee.qual,), depth + 1)
+            return stmts
         if falls_through:
             if target is not None:
                 new_body.append(ast.copy_location(ast.Assign(targets=[clone(target)], value=ast.Constant(value=None)), call))
@@ -389,6 +399,12 @@ class Inliner:
                 c = self._resolve_in(cx, st.value, stack)
                 if c is not None:
                     return self._expand(cx.scope, c, st.value, None, stack, depth)
+            if isinstance(st, ast.Return) and isinstance(st.value, ast.Call):
+                # tail call of a helper: any Return still standing is a return of the function being rewritten (the returns of
+                # non-tail spliced bodies have become assignments + break)
+                c = self._resolve_in(cx, st.value, stack)
+                if c is not None and not _is_generator(c.node):
+                    return self._expand(cx.scope, c, st.value, None, stack, depth, tail=True)
             # hoist unconditionally evaluated helper calls out of the statement's own expressions
             hoisted: list[ast.stmt] = []
             for expr_field in _own_expr_fields(st):
@@ -884,6 +900,144 @@ class _ClassToClosure:
         return changed
 
 
+def _propagate_copies(fn) -> int:
+    """a = b (both plain locals bound exactly once, `a` not a parameter, not used in nested functions) -> uses of a read b.
+    Applied to the temporaries the inliner makes (`__r3 = _Parts(...); parts = __r3`) so that a record built in a spliced
+    helper and named in the caller is seen as one local."""
+    if isinstance(fn, ast.Lambda):
+        return 0
+    n_done = 0
+    for _ in range(6):
+        stores: dict[str, int] = {}
+        for n in ast.walk(fn):
+            if isinstance(n, ast.Name) and isinstance(n.ctx, (ast.Store, ast.Del)):
+                stores[n.id] = stores.get(n.id, 0) + 1
+        params = {a.arg for a in fn.args.posonlyargs + fn.args.args + fn.args.kwonlyargs}
+        nested_names = {x.id for n in ast.walk(fn) if isinstance(n, (ast.FunctionDef, ast.AsyncFunctionDef, ast.Lambda)) and n is not fn
+                        for x in ast.walk(n) if isinstance(x, ast.Name)}
+        done = False
+        for holder in ast.walk(fn):
+            for fld in ("body", "orelse", "finalbody"):
+                lst = getattr(holder, fld, None)
+                if not (isinstance(lst, list) and lst and isinstance(lst[0], ast.stmt)):
+                    continue
+                for st in list(lst):
+                    if isinstance(st, ast.Assign) and len(st.targets) == 1 and isinstance(st.targets[0], ast.Name) and isinstance(st.value, ast.Name):
+                        a, b = st.targets[0].id, st.value.id
+                        if a == b or a in params or stores.get(a) != 1 or stores.get(b, 0) != 1 or b in params or a in nested_names or not b.startswith("__"):
+                            continue
+                        for x in ast.walk(fn):
+                            if isinstance(x, ast.Name) and x.id == a and isinstance(x.ctx, ast.Load):
+                                x.id = b
+                        lst.remove(st)
+                        if not lst:
+                            lst.append(ast.copy_location(ast.Pass(), st))
+                        n_done += 1
+                        done = True
+                        break
+                if done:
+                    break
+            if done:
+                break
+        if not done:
+            break
+    return n_done
+
+
+def _scalar_replace_records(repo: Repo, mod, fn) -> int:
+    """fmt = _Opts(width=w, semantic=s) ... fmt.width ... fmt.semantic      ->   fmt__width = w; fmt__semantic = s ... fmt__width ...
+    for a local that is bound once to a freshly built record of the package (dataclass / NamedTuple without custom
+    __init__ / __post_init__) and is used only through reads of its fields (after the private helpers it was handed to have
+    been spliced in). The record itself is never observable then; its fields are plain locals."""
+    from .loader import ClassInfo
+
+    if isinstance(fn, ast.Lambda):
+        return 0
+    stores: dict[str, list[ast.AST]] = {}
+    for n in ast.walk(fn):
+        if isinstance(n, ast.Name) and isinstance(n.ctx, (ast.Store, ast.Del)):
+            stores.setdefault(n.id, []).append(n)
+    params = {a.arg for a in fn.args.posonlyargs + fn.args.args + fn.args.kwonlyargs}
+    count = 0
+    for st in [x for x in walk_no_nested(fn) if isinstance(x, ast.Assign)]:  # (statements of this scope; nested defs have their own turn)
+        if not (len(st.targets) == 1 and isinstance(st.targets[0], ast.Name) and isinstance(st.value, ast.Call)):
+            continue
+        v = st.targets[0].id
+        if v in params or len(stores.get(v, [])) != 1:
+            continue
+        call = st.value
+        ci = repo.resolve_expr(call.func, mod, None) if isinstance(call.func, (ast.Name, ast.Attribute)) else None
+        if not isinstance(ci, ClassInfo) or "__init__" in ci.methods or "__post_init__" in ci.methods:
+            continue
+        decos = [ast.unparse(d) for d in ci.node.decorator_list]
+        bases = [ast.unparse(b) for b in ci.node.bases]
+        if not (any("dataclass" in d for d in decos) or any(b.endswith("NamedTuple") for b in bases)):
+            continue
+        fields = [s_.target.id for s_ in ci.node.body if isinstance(s_, ast.AnnAssign) and isinstance(s_.target, ast.Name)]
+        defaults = {s_.target.id: s_.value for s_ in ci.node.body if isinstance(s_, ast.AnnAssign) and isinstance(s_.target, ast.Name)}
+        if not fields or any(isinstance(a, ast.Starred) for a in call.args) or any(k.arg is None for k in call.keywords) or len(call.args) > len(fields):
+            continue
+        order: list[tuple[str, ast.expr]] = [(f_, a) for f_, a in zip(fields, call.args)]
+        ok = True
+        for k in call.keywords:
+            if k.arg not in fields or k.arg in dict(order):
+                ok = False
+            order.append((k.arg, k.value))
+        for f_ in fields:
+            if f_ not in dict(order):
+                d = defaults.get(f_)
+                if not isinstance(d, ast.Constant):
+                    ok = False
+                else:
+                    order.append((f_, d))
+        if not ok:
+            continue
+        # every other occurrence of v is a read of one of its fields, in this function itself (not in a nested one)
+        uses_ok = True
+        attr_nodes: list[ast.Attribute] = []
+        from .loader import set_parents, parent
+
+        set_parents(fn)
+        for n in ast.walk(fn):
+            if isinstance(n, ast.Name) and n.id == v and isinstance(n.ctx, ast.Load):
+                par = parent(n)
+                if isinstance(par, ast.Attribute) and par.value is n and par.attr in fields and isinstance(par.ctx, ast.Load):
+                    attr_nodes.append(par)
+                else:
+                    uses_ok = False
+        for n in ast.walk(fn):
+            if isinstance(n, (ast.FunctionDef, ast.AsyncFunctionDef, ast.Lambda)) and n is not fn:
+                # closures may read the fields too (the record is bound once, before they can run); they must not rebind the name
+                a_ = n.args
+                inner_params = {x.arg for x in a_.posonlyargs + a_.args + a_.kwonlyargs} | ({a_.vararg.arg} if a_.vararg else set()) | ({a_.kwarg.arg} if a_.kwarg else set())
+                if v in inner_params:
+                    uses_ok = False
+        # the construction must come before any closure that reads it is defined or called: require it at the top level of fn
+        if not any(st is x for x in fn.body) and any(isinstance(n, (ast.FunctionDef, ast.AsyncFunctionDef, ast.Lambda)) and n is not fn
+                                                      and any(isinstance(x, ast.Name) and x.id == v for x in ast.walk(n)) for n in ast.walk(fn)):
+            uses_ok = False
+        if not uses_ok or not attr_nodes:
+            continue
+        new_assigns = [ast.copy_location(ast.Assign(targets=[ast.Name(id=f"{v}__{f_}", ctx=ast.Store())], value=ex, type_comment=None), st) for f_, ex in order]
+        # splice the assignments in place of the construction
+        for holder in ast.walk(fn):
+            for fld in ("body", "orelse", "finalbody"):
+                lst = getattr(holder, fld, None)
+                if isinstance(lst, list) and st in lst:
+                    i = lst.index(st)
+                    lst[i:i + 1] = new_assigns
+        for a in attr_nodes:
+            par = parent(a)
+            repl = ast.copy_location(ast.Name(id=f"{v}__{a.attr}", ctx=ast.Load()), a)
+            for fld, val in ast.iter_fields(par):
+                if val is a:
+                    setattr(par, fld, repl)
+                elif isinstance(val, list) and any(x is a for x in val):
+                    setattr(par, fld, [repl if x is a else x for x in val])
+        count += 1
+    return count
+
+
 def build_inlined_repo(root=None, keep: set[str] | None = None) -> tuple[Repo, dict[str, int]]:
     """A second Repo whose functions have their private helpers inlined (ASTs mutated in place on a private parse,
     original line numbers kept on every statement)."""
@@ -925,6 +1079,17 @@ def build_inlined_repo(root=None, keep: set[str] | None = None) -> tuple[Repo, d
         if new is not None:
             fi.node.body = new.body
             changed += 1
+    sra = 0
+    for mod in work.modules.values():
+        # (the function nodes of the module trees: after inlining, a nested def inside its parent's new body is a different
+        # object from the FuncInfo of the nested function)
+        for fn_node in [n for n in ast.walk(mod.tree) if isinstance(n, (ast.FunctionDef, ast.AsyncFunctionDef))]:
+            try:
+                _propagate_copies(fn_node)
+                sra += _scalar_replace_records(work, mod, fn_node)
+            except Exception:  # noqa: BLE001 - a normalisation that cannot be applied is simply not applied
+                pass
+    inl.stats["records_replaced"] = sra
     for mod in work.modules.values():
         ast.fix_missing_locations(mod.tree)
     view = Repo(root, trees={name: (m.path, m.source, m.tree) for name, m in work.modules.items()})
